@@ -61,15 +61,16 @@ Fixpoint cause_text (e : err) : option N :=
 Inductive mval :=
 | MStr (s : N)                 (* any string; 0 = "" = absent *)
 | MDur (d : Z)                 (* a string time.ParseDuration accepts, in ns *)
-| MUntil (d : Z).              (* RFC3339 time = (time of the call) + d; observed in whole seconds
-                                  and relative to the start of the invocation: compared within 3 s *)
+| MUntil (lo hi : Z).           (* RFC3339 time = (time of the call) + d for some lo <= d <= hi: the model
+                                  writes [MUntil d d]; an observed value is whole seconds and was set at an
+                                  unknown moment of the invocation, so it is an interval; equal = overlapping *)
 Definition meta := list (N * mval).
 
 Definition mval_eqb (a b : mval) : bool :=
   match a, b with
   | MStr s, MStr t => N.eqb s t
   | MDur d, MDur e => Z.eqb d e
-  | MUntil d, MUntil e => Z.leb (Z.abs (d - e)) 3000000000
+  | MUntil l1 h1, MUntil l2 h2 => (Z.eqb l1 l2 && Z.eqb h1 h2) || (Z.leb l1 h2 && Z.leb l2 h1)
   | _, _ => false
   end.
 
@@ -228,7 +229,7 @@ Definition next_delay (v : variant) (c : dcfg) (cur : mval) : Z :=
   end.
 Definition apply_delay (v : variant) (c : dcfg) (mt : meta) : meta :=
   let d := next_delay v c (mget K_DFOR mt) in
-  mset K_DFOR (MDur d) (mset K_DUNTIL (MUntil d) mt).
+  mset K_DFOR (MDur d) (mset K_DUNTIL (MUntil d d) mt).
 
 (** retry.go l.63-95: [n] = iterations left, [depth] = size of the context stack the loop's
     ctx was taken from (ctx := msg.Context() after the first failure) *)
